@@ -82,6 +82,21 @@ def _handed_to_learner_by_otel2puml(cfg_path: str, outdir: str) -> tuple[dict, s
     return captured, err
 
 
+def _cli_in_process(argv: list[str]) -> int:
+    """The command line entry point driven inside this (long-lived) worker interpreter: what
+    the parser + main_handler do must not depend on earlier invocations in the process."""
+    import contextlib
+    import io
+    from tel2puml.__main__ import ERROR_MESSAGES, main_handler, parser
+    buf = io.StringIO()
+    try:
+        with contextlib.redirect_stdout(buf), contextlib.redirect_stderr(buf):
+            main_handler(vars(parser.parse_args(argv)), ERROR_MESSAGES)
+        return 0
+    except SystemExit as exc:
+        return int(exc.code or 0) if isinstance(exc.code, int) else 1
+
+
 def _loaded_by_pv2puml(folder: str, job_name: str, mapping: dict | None) -> dict[str, dict]:
     """What pv2puml reads back from the saved files (its own loader, in-process)."""
     from tel2puml.pv_to_puml.pv_to_puml import pv_files_to_pv_streams
@@ -246,6 +261,27 @@ def run_routes(case: dict) -> dict:
             if not a_ok:
                 info["both_fail"] = True
                 continue
+            # the same pv2puml invocation inside this worker interpreter (which has already
+            # served other workflows / cases): same diagram as the fresh process
+            rc_in = _cli_in_process(["-o", os.path.join(wd, "outB3"), "pv2puml", "-fp", folder,
+                                     "-jn", wfn] + mc)
+            pc = os.path.join(wd, "outB3", fname + ".puml")
+            info["in_process_rc"] = rc_in
+            if rc_in != 0 or not os.path.exists(pc):
+                out["violations"].append({
+                    "symptom": "pv2puml-in-a-long-lived-process-fails",
+                    "detail": {"workflow": wfn, "rc": rc_in}})
+            else:
+                C, _r, ic = puml.parse(open(pc).read(), expect_name=wfn)
+                Bp, _s, ibp = puml.parse(open(pb).read(), expect_name=wfn)
+                same = set(ic["names"]) == set(ibp["names"]) and (
+                    (C is None and Bp is None) or (C is not None and Bp is not None and
+                                                   puml.equivalent(C, Bp, 2, 800, rng)["ok"]))
+                if not same:
+                    out["violations"].append({
+                        "symptom": "pv2puml-in-a-long-lived-process-differs-from-fresh-process",
+                        "detail": {"workflow": wfn, "in_process": open(pc).read().split("\n"),
+                                   "fresh": open(pb).read().split("\n")}})
             ta, tb = open(pa).read(), open(pb).read()
             A, _p, ia = puml.parse(ta, expect_name=wfn)
             B, _q, ib = puml.parse(tb, expect_name=wfn)
